@@ -99,11 +99,11 @@ func Cleanup() {
 // If mustAgree is set, it waits for a second definite answer (within the timeout) and
 // reports disagreement through the error.
 func Solve(sc *Script, nGets int, timeoutS int, seed int, only string) (*Result, error) {
-	return SolveWithAbstraction(sc, nil, nil, nGets, timeoutS, seed, only)
+	return SolveWithAbstraction(sc, nil, nil, nil, nGets, timeoutS, seed, only)
 }
 
 // SolveWithAbstraction additionally races z3 on a QF_BV over-approximation; only its "unsat" counts.
-func SolveWithAbstraction(sc *Script, abs *Script, weak *Script, nGets int, timeoutS int, seed int, only string) (*Result, error) {
+func SolveWithAbstraction(sc *Script, abs *Script, weak *Script, light *Script, nGets int, timeoutS int, seed int, only string) (*Result, error) {
 	fileMu.Lock()
 	fileSeq++
 	n := fileSeq
@@ -157,15 +157,24 @@ func SolveWithAbstraction(sc *Script, abs *Script, weak *Script, nGets int, time
 			}
 		}
 	}
+	lightFile := ""
+	if light != nil && only == "" {
+		lightFile = file + ".light.smt2"
+		if err := os.WriteFile(lightFile, []byte(light.Text), 0o644); err == nil {
+			defer os.Remove(lightFile)
+		} else {
+			lightFile = ""
+		}
+	}
 	// Stage 1: solver seed 0 for the whole budget: the configuration every claimed obligation was
 	// developed under, so a run is reproducible whatever seed the caller exports. Stage 2 (only
 	// after "unknown"): one more race under the caller's seed, because solver heuristics
 	// (quantifier instantiation order above all) are seed-sensitive. Soundness never depends on
 	// the seed; only "unknown" vs a definite answer does.
 	start := time.Now()
-	r := raceSeeds(file, absFile, weakFile, weakBs, bs, nGets, timeoutS, []int{0})
+	r := raceSeeds(file, absFile, weakFile, lightFile, weakBs, bs, nGets, timeoutS, []int{0})
 	if r.Verdict == Unknown && timeoutS >= 20 {
-		r2 := raceSeeds(file, absFile, weakFile, weakBs, bs, nGets, timeoutS/2, []int{seed + 1})
+		r2 := raceSeeds(file, absFile, weakFile, lightFile, weakBs, bs, nGets, timeoutS/2, []int{seed + 1})
 		if r2.Verdict == Unknown {
 			r2.Raw = r.Raw + "\n" + r2.Raw
 		}
@@ -177,7 +186,7 @@ func SolveWithAbstraction(sc *Script, abs *Script, weak *Script, nGets int, time
 
 // raceSeeds races every back end under every seed on the script (and z3 on the QF_BV
 // abstraction, where only "unsat" counts); the first definite answer wins.
-func raceSeeds(file, absFile, weakFile string, weakBs []Backend, bs []Backend, nGets, timeoutS int, seeds []int) *Result {
+func raceSeeds(file, absFile, weakFile, lightFile string, weakBs []Backend, bs []Backend, nGets, timeoutS int, seeds []int) *Result {
 	ctx, cancel := context.WithTimeout(context.Background(), time.Duration(timeoutS+5)*time.Second)
 	defer cancel()
 	start := time.Now()
@@ -186,6 +195,16 @@ func raceSeeds(file, absFile, weakFile string, weakBs []Backend, bs []Backend, n
 	launch := func(b Backend, f string, seed int, abstract bool, tag ...string) {
 		n++
 		go func() {
+			if len(tag) > 0 {
+				// helper variants start late: most problems are decided within seconds and the
+				// cores are better spent on other obligations
+				select {
+				case <-ctx.Done():
+					ch <- &Result{Verdict: Unknown, Solver: b.Name + "/" + tag[0], Raw: tag[0] + " not started"}
+					return
+				case <-time.After(4 * time.Second):
+				}
+			}
 			args := b.Args(f, timeoutS, seed)
 			cmd := exec.CommandContext(ctx, args[0], args[1:]...)
 			var out bytes.Buffer
@@ -221,6 +240,14 @@ func raceSeeds(file, absFile, weakFile string, weakBs []Backend, bs []Backend, n
 		for _, b := range Backends() {
 			if strings.HasPrefix(b.Name, "z3") {
 				launch(b, absFile, seeds[0], true)
+			}
+		}
+	}
+	if lightFile != "" {
+		// the small hypotheses only (a subset of the problem): only "unsat" counts
+		for _, b := range Backends() {
+			if !strings.HasPrefix(b.Name, "z3-4") {
+				launch(b, lightFile, seeds[0], true, "small-hypotheses")
 			}
 		}
 	}
